@@ -86,38 +86,112 @@ fn add_point(db: &mut Database, r: &mut Rng, t: usize, index: u16, class: Option
     let c = class.map(class_of);
     match t {
         0 => {
-            let ev = *r.pick(&[EventBinaryInputVariation::Group2Var1, EventBinaryInputVariation::Group2Var2, EventBinaryInputVariation::Group2Var3]);
-            db.add(index, c, BinaryInputConfig::new(*r.pick(&[StaticBinaryInputVariation::Group1Var1, StaticBinaryInputVariation::Group1Var2]), ev));
+            let ev = *r.pick(&[
+                EventBinaryInputVariation::Group2Var1,
+                EventBinaryInputVariation::Group2Var2,
+                EventBinaryInputVariation::Group2Var3,
+            ]);
+            db.add(
+                index,
+                c,
+                BinaryInputConfig::new(
+                    *r.pick(&[
+                        StaticBinaryInputVariation::Group1Var1,
+                        StaticBinaryInputVariation::Group1Var2,
+                    ]),
+                    ev,
+                ),
+            );
         }
         1 => {
-            let ev = *r.pick(&[EventDoubleBitBinaryInputVariation::Group4Var1, EventDoubleBitBinaryInputVariation::Group4Var2, EventDoubleBitBinaryInputVariation::Group4Var3]);
-            db.add(index, c, DoubleBitBinaryInputConfig::new(StaticDoubleBitBinaryInputVariation::Group3Var2, ev));
+            let ev = *r.pick(&[
+                EventDoubleBitBinaryInputVariation::Group4Var1,
+                EventDoubleBitBinaryInputVariation::Group4Var2,
+                EventDoubleBitBinaryInputVariation::Group4Var3,
+            ]);
+            db.add(
+                index,
+                c,
+                DoubleBitBinaryInputConfig::new(
+                    StaticDoubleBitBinaryInputVariation::Group3Var2,
+                    ev,
+                ),
+            );
         }
         2 => {
-            let ev = *r.pick(&[EventBinaryOutputStatusVariation::Group11Var1, EventBinaryOutputStatusVariation::Group11Var2]);
-            db.add(index, c, BinaryOutputStatusConfig::new(StaticBinaryOutputStatusVariation::Group10Var2, ev));
+            let ev = *r.pick(&[
+                EventBinaryOutputStatusVariation::Group11Var1,
+                EventBinaryOutputStatusVariation::Group11Var2,
+            ]);
+            db.add(
+                index,
+                c,
+                BinaryOutputStatusConfig::new(StaticBinaryOutputStatusVariation::Group10Var2, ev),
+            );
         }
         3 => {
-            let ev = *r.pick(&[EventCounterVariation::Group22Var1, EventCounterVariation::Group22Var2, EventCounterVariation::Group22Var5, EventCounterVariation::Group22Var6]);
-            db.add(index, c, CounterConfig::new(StaticCounterVariation::Group20Var1, ev, 0));
+            let ev = *r.pick(&[
+                EventCounterVariation::Group22Var1,
+                EventCounterVariation::Group22Var2,
+                EventCounterVariation::Group22Var5,
+                EventCounterVariation::Group22Var6,
+            ]);
+            db.add(
+                index,
+                c,
+                CounterConfig::new(StaticCounterVariation::Group20Var1, ev, 0),
+            );
         }
         4 => {
-            let ev = *r.pick(&[EventFrozenCounterVariation::Group23Var1, EventFrozenCounterVariation::Group23Var2, EventFrozenCounterVariation::Group23Var5, EventFrozenCounterVariation::Group23Var6]);
-            db.add(index, c, FrozenCounterConfig::new(StaticFrozenCounterVariation::Group21Var1, ev, 0));
+            let ev = *r.pick(&[
+                EventFrozenCounterVariation::Group23Var1,
+                EventFrozenCounterVariation::Group23Var2,
+                EventFrozenCounterVariation::Group23Var5,
+                EventFrozenCounterVariation::Group23Var6,
+            ]);
+            db.add(
+                index,
+                c,
+                FrozenCounterConfig::new(StaticFrozenCounterVariation::Group21Var1, ev, 0),
+            );
         }
         5 => {
             let ev = *r.pick(&[
-                EventAnalogInputVariation::Group32Var1, EventAnalogInputVariation::Group32Var2, EventAnalogInputVariation::Group32Var3, EventAnalogInputVariation::Group32Var4,
-                EventAnalogInputVariation::Group32Var5, EventAnalogInputVariation::Group32Var6, EventAnalogInputVariation::Group32Var7, EventAnalogInputVariation::Group32Var8,
+                EventAnalogInputVariation::Group32Var1,
+                EventAnalogInputVariation::Group32Var2,
+                EventAnalogInputVariation::Group32Var3,
+                EventAnalogInputVariation::Group32Var4,
+                EventAnalogInputVariation::Group32Var5,
+                EventAnalogInputVariation::Group32Var6,
+                EventAnalogInputVariation::Group32Var7,
+                EventAnalogInputVariation::Group32Var8,
             ]);
-            db.add(index, c, AnalogInputConfig::new(StaticAnalogInputVariation::Group30Var1, ev, 0.0));
+            db.add(
+                index,
+                c,
+                AnalogInputConfig::new(StaticAnalogInputVariation::Group30Var1, ev, 0.0),
+            );
         }
         6 => {
             let ev = *r.pick(&[
-                EventAnalogOutputStatusVariation::Group42Var1, EventAnalogOutputStatusVariation::Group42Var2, EventAnalogOutputStatusVariation::Group42Var3, EventAnalogOutputStatusVariation::Group42Var4,
-                EventAnalogOutputStatusVariation::Group42Var5, EventAnalogOutputStatusVariation::Group42Var6, EventAnalogOutputStatusVariation::Group42Var7, EventAnalogOutputStatusVariation::Group42Var8,
+                EventAnalogOutputStatusVariation::Group42Var1,
+                EventAnalogOutputStatusVariation::Group42Var2,
+                EventAnalogOutputStatusVariation::Group42Var3,
+                EventAnalogOutputStatusVariation::Group42Var4,
+                EventAnalogOutputStatusVariation::Group42Var5,
+                EventAnalogOutputStatusVariation::Group42Var6,
+                EventAnalogOutputStatusVariation::Group42Var7,
+                EventAnalogOutputStatusVariation::Group42Var8,
             ]);
-            db.add(index, c, AnalogOutputStatusConfig::new(StaticAnalogOutputStatusVariation::Group40Var1, ev, 0.0));
+            db.add(
+                index,
+                c,
+                AnalogOutputStatusConfig::new(
+                    StaticAnalogOutputStatusVariation::Group40Var1,
+                    ev,
+                    0.0,
+                ),
+            );
         }
         _ => {
             db.add(index, c, OctetStringConfig);
@@ -187,8 +261,19 @@ impl<'a> World<'a> {
                 ("why", J::s(why)),
                 ("extra", extra),
                 ("config", self.cfg.to_json()),
-                ("history", J::arr(self.hist.iter().rev().take(40).rev().cloned())),
-                ("held", J::arr(self.ledger.iter().filter(|e| e.st == St::Held).map(|e| format!("id{} t{} i{} c{}", e.id, e.t, e.index, e.class)))),
+                (
+                    "history",
+                    J::arr(self.hist.iter().rev().take(40).rev().cloned()),
+                ),
+                (
+                    "held",
+                    J::arr(
+                        self.ledger
+                            .iter()
+                            .filter(|e| e.st == St::Held)
+                            .map(|e| format!("id{} t{} i{} c{}", e.id, e.t, e.index, e.class)),
+                    ),
+                ),
             ]),
             J::obj(vec![
                 ("check", J::s(self.check)),
@@ -228,36 +313,92 @@ impl<'a> World<'a> {
         }
         let flags: u8 = 0x01 | (self.r.u8() & 0x1E & if self.r.bool() { 0xFF } else { 0 });
         let opt = UpdateOptions::new(true, EventMode::Force);
-        let tm = if self.r.chance(1, 6) { Time::unsynchronized(time) } else { Time::synchronized(time) };
+        let tm = if self.r.chance(1, 6) {
+            Time::unsynchronized(time)
+        } else {
+            Time::synchronized(time)
+        };
         let (val, info) = match pt.t {
             0 => {
                 let v = self.r.bool();
-                (UVal::Bin(v), self.sim.db(|db| db.update2(pt.index, &BinaryInput::new(v, Flags::new(flags), tm), opt)))
+                (
+                    UVal::Bin(v),
+                    self.sim.db(|db| {
+                        db.update2(pt.index, &BinaryInput::new(v, Flags::new(flags), tm), opt)
+                    }),
+                )
             }
             1 => {
                 let v = self.r.below(4) as u8;
-                let d = [DoubleBit::Intermediate, DoubleBit::DeterminedOff, DoubleBit::DeterminedOn, DoubleBit::Indeterminate][v as usize];
-                (UVal::Dbl(v), self.sim.db(|db| db.update2(pt.index, &DoubleBitBinaryInput::new(d, Flags::new(flags), tm), opt)))
+                let d = [
+                    DoubleBit::Intermediate,
+                    DoubleBit::DeterminedOff,
+                    DoubleBit::DeterminedOn,
+                    DoubleBit::Indeterminate,
+                ][v as usize];
+                (
+                    UVal::Dbl(v),
+                    self.sim.db(|db| {
+                        db.update2(
+                            pt.index,
+                            &DoubleBitBinaryInput::new(d, Flags::new(flags), tm),
+                            opt,
+                        )
+                    }),
+                )
             }
             2 => {
                 let v = self.r.bool();
-                (UVal::Bin(v), self.sim.db(|db| db.update2(pt.index, &BinaryOutputStatus::new(v, Flags::new(flags), tm), opt)))
+                (
+                    UVal::Bin(v),
+                    self.sim.db(|db| {
+                        db.update2(
+                            pt.index,
+                            &BinaryOutputStatus::new(v, Flags::new(flags), tm),
+                            opt,
+                        )
+                    }),
+                )
             }
             3 => {
                 let v = self.r.u32() % 60000;
-                (UVal::Num(v), self.sim.db(|db| db.update2(pt.index, &Counter::new(v, Flags::new(flags), tm), opt)))
+                (
+                    UVal::Num(v),
+                    self.sim.db(|db| {
+                        db.update2(pt.index, &Counter::new(v, Flags::new(flags), tm), opt)
+                    }),
+                )
             }
             4 => {
                 let v = self.r.u32() % 60000;
-                (UVal::Num(v), self.sim.db(|db| db.update2(pt.index, &FrozenCounter::new(v, Flags::new(flags), tm), opt)))
+                (
+                    UVal::Num(v),
+                    self.sim.db(|db| {
+                        db.update2(pt.index, &FrozenCounter::new(v, Flags::new(flags), tm), opt)
+                    }),
+                )
             }
             5 => {
                 let v = (self.r.u32() % 30000) as f64;
-                (UVal::Ana(v), self.sim.db(|db| db.update2(pt.index, &AnalogInput::new(v, Flags::new(flags), tm), opt)))
+                (
+                    UVal::Ana(v),
+                    self.sim.db(|db| {
+                        db.update2(pt.index, &AnalogInput::new(v, Flags::new(flags), tm), opt)
+                    }),
+                )
             }
             6 => {
                 let v = (self.r.u32() % 30000) as f64;
-                (UVal::Ana(v), self.sim.db(|db| db.update2(pt.index, &AnalogOutputStatus::new(v, Flags::new(flags), tm), opt)))
+                (
+                    UVal::Ana(v),
+                    self.sim.db(|db| {
+                        db.update2(
+                            pt.index,
+                            &AnalogOutputStatus::new(v, Flags::new(flags), tm),
+                            opt,
+                        )
+                    }),
+                )
             }
             _ => {
                 let n = self.r.range(1, 9) as usize;
@@ -265,29 +406,66 @@ impl<'a> World<'a> {
                 // make octet strings unique: embed the time
                 v[0] = (time & 0xFF) as u8;
                 let o = OctetString::new(&v).unwrap();
-                (UVal::Oct(v), self.sim.db(|db| db.update2(pt.index, &o, opt)))
+                (
+                    UVal::Oct(v),
+                    self.sim.db(|db| db.update2(pt.index, &o, opt)),
+                )
             }
         };
         out::count("updates", 1);
         let max = self.cfg.event_cfg[pt.t];
         let mut push = |w: &mut Self, id: u64| {
-            w.ledger.push(LEv { id, t: pt.t, index: pt.index, class: pt.class.unwrap_or(0), val: val.clone(), flags, time, st: St::Held, carried: vec![] });
+            w.ledger.push(LEv {
+                id,
+                t: pt.t,
+                index: pt.index,
+                class: pt.class.unwrap_or(0),
+                val: val.clone(),
+                flags,
+                time,
+                st: St::Held,
+                carried: vec![],
+            });
         };
         match info {
-            UpdateInfo::NoPoint => self.viol("C03", "update_nopoint", "nopoint", format!("update of an existing point {pt:?} returned NoPoint"), J::Null),
+            UpdateInfo::NoPoint => self.viol(
+                "C03",
+                "update_nopoint",
+                "nopoint",
+                format!("update of an existing point {pt:?} returned NoPoint"),
+                J::Null,
+            ),
             UpdateInfo::NoEvent => {
                 if pt.class.is_some() && max > 0 {
-                    self.viol("C03", "R0_event_not_recorded", &format!("t{}", pt.t), format!("forced update of {pt:?} with event class produced no event"), J::Null);
+                    self.viol(
+                        "C03",
+                        "R0_event_not_recorded",
+                        &format!("t{}", pt.t),
+                        format!("forced update of {pt:?} with event class produced no event"),
+                        J::Null,
+                    );
                 }
                 self.hist.push(format!("update {pt:?} -> NoEvent"));
             }
             UpdateInfo::Created(id) => {
                 if pt.class.is_none() || max == 0 {
-                    self.viol("C03", "R0_event_invented", &format!("t{}", pt.t), format!("update of {pt:?} (class {:?}, max {max}) created event {id}", pt.class), J::Null);
+                    self.viol(
+                        "C03",
+                        "R0_event_invented",
+                        &format!("t{}", pt.t),
+                        format!(
+                            "update of {pt:?} (class {:?}, max {max}) created event {id}",
+                            pt.class
+                        ),
+                        J::Null,
+                    );
                 }
                 self.check_new_id(id);
                 push(self, id);
-                self.hist.push(format!("update t{} i{} c{:?} time={time} -> Created({id})", pt.t, pt.index, pt.class));
+                self.hist.push(format!(
+                    "update t{} i{} c{:?} time={time} -> Created({id})",
+                    pt.t, pt.index, pt.class
+                ));
                 out::count("events_created", 1);
             }
             UpdateInfo::Overflow { created, discarded } => {
@@ -300,14 +478,24 @@ impl<'a> World<'a> {
                         if !oldest_of_type {
                             self.viol("C03", "R0_discard_wrong_type", "type", format!("overflow of type {} discarded event {discarded} of another type", pt.t), J::Null);
                         }
-                        if self.ledger.iter().any(|x| x.st == St::Held && x.t == pt.t && x.id < discarded) {
+                        if self
+                            .ledger
+                            .iter()
+                            .any(|x| x.st == St::Held && x.t == pt.t && x.id < discarded)
+                        {
                             self.viol("C03", "R0_discard_not_oldest", "order", format!("overflow discarded event {discarded} although an older one of the type is held"), J::Null);
                         }
                         if was_carried {
                             out::count("overflow_discarded_carried_event", 1);
                         }
                     }
-                    _ => self.viol("C03", "R2_discard_unknown", "unknown", format!("overflow reports discarding event {discarded} which is not held"), J::Null),
+                    _ => self.viol(
+                        "C03",
+                        "R2_discard_unknown",
+                        "unknown",
+                        format!("overflow reports discarding event {discarded} which is not held"),
+                        J::Null,
+                    ),
                 }
                 push(self, created);
                 self.overflow = true;
@@ -315,7 +503,10 @@ impl<'a> World<'a> {
                 out::count("events_created", 1);
                 out::count("overflows", 1);
                 // an event discarded while part of an outstanding response is no longer expected
-                for c in [&mut self.out_sol, &mut self.out_unsol].into_iter().flatten() {
+                for c in [&mut self.out_sol, &mut self.out_unsol]
+                    .into_iter()
+                    .flatten()
+                {
                     c.ids.retain(|x| *x != discarded);
                 }
                 if let Some(s) = &mut self.series_expect {
@@ -324,13 +515,29 @@ impl<'a> World<'a> {
             }
         }
         if max > 0 && self.held_count_type(pt.t) > max as usize {
-            self.viol("C03", "R3_over_capacity", &format!("t{}", pt.t), format!("{} events of type {} held, capacity {max}", self.held_count_type(pt.t), pt.t), J::Null);
+            self.viol(
+                "C03",
+                "R3_over_capacity",
+                &format!("t{}", pt.t),
+                format!(
+                    "{} events of type {} held, capacity {max}",
+                    self.held_count_type(pt.t),
+                    pt.t
+                ),
+                J::Null,
+            );
         }
     }
 
     fn check_new_id(&self, id: u64) {
         if self.ledger.iter().any(|e| e.id == id) {
-            self.viol("C03", "R2_duplicate_id", "dup", format!("event id {id} issued twice"), J::Null);
+            self.viol(
+                "C03",
+                "R2_duplicate_id",
+                "dup",
+                format!("event id {id} issued twice"),
+                J::Null,
+            );
         }
     }
 
@@ -343,7 +550,13 @@ impl<'a> World<'a> {
         let (meas, _ctos) = match ra::decode_response_measurements(&fr.objects) {
             Ok(x) => x,
             Err(e) => {
-                self.viol("C03", "R4_undecodable", what, format!("transmitted fragment does not decode: {e:?}"), J::hex(frag));
+                self.viol(
+                    "C03",
+                    "R4_undecodable",
+                    what,
+                    format!("transmitted fragment does not decode: {e:?}"),
+                    J::hex(frag),
+                );
                 return vec![];
             }
         };
@@ -353,21 +566,53 @@ impl<'a> World<'a> {
                 Some(t) => t,
                 None => continue,
             };
-            let cand = self.ledger.iter().find(|e| e.st == St::Held && e.t == t && e.index as u32 == m.index && !ids.contains(&e.id) && meas_matches(e, m));
+            let cand = self.ledger.iter().find(|e| {
+                e.st == St::Held
+                    && e.t == t
+                    && e.index as u32 == m.index
+                    && !ids.contains(&e.id)
+                    && meas_matches(e, m)
+            });
             match cand {
                 Some(e) => ids.push(e.id),
                 None => {
                     // is there a held event for that point at all? then fidelity, else invention
-                    let same_point = self.ledger.iter().any(|e| e.st == St::Held && e.t == t && e.index as u32 == m.index);
-                    let released = self.ledger.iter().any(|e| e.st != St::Held && e.t == t && e.index as u32 == m.index && meas_matches(e, m));
-                    let rule = if released { "R2_resurrected" } else if same_point { "R4_fidelity" } else { "R4_invented" };
-                    self.viol("C03", rule, &format!("g{}v{}|{what}", m.group, m.var), format!("event object {m:?} matches no held event"), J::hex(&frag[..frag.len().min(120)]));
+                    let same_point = self
+                        .ledger
+                        .iter()
+                        .any(|e| e.st == St::Held && e.t == t && e.index as u32 == m.index);
+                    let released = self.ledger.iter().any(|e| {
+                        e.st != St::Held
+                            && e.t == t
+                            && e.index as u32 == m.index
+                            && meas_matches(e, m)
+                    });
+                    let rule = if released {
+                        "R2_resurrected"
+                    } else if same_point {
+                        "R4_fidelity"
+                    } else {
+                        "R4_invented"
+                    };
+                    self.viol(
+                        "C03",
+                        rule,
+                        &format!("g{}v{}|{what}", m.group, m.var),
+                        format!("event object {m:?} matches no held event"),
+                        J::hex(&frag[..frag.len().min(120)]),
+                    );
                 }
             }
         }
         // oldest first
         if ids.windows(2).any(|w| w[0] > w[1]) {
-            self.viol("C03", "R4_order", what, format!("events not reported oldest first: ids {ids:?}"), J::Null);
+            self.viol(
+                "C03",
+                "R4_order",
+                what,
+                format!("events not reported oldest first: ids {ids:?}"),
+                J::Null,
+            );
         } else if ids.len() >= 2 {
             out::count("R4_order_ok", 1);
         }
@@ -419,18 +664,40 @@ impl<'a> World<'a> {
             outstanding.extend(c.ids.iter());
         }
         for k in 1..=3u8 {
-            let want = self.held().any(|e| e.class == k && !outstanding.contains(&e.id));
+            let want = self
+                .held()
+                .any(|e| e.class == k && !outstanding.contains(&e.id));
             let bit = [ra::IIN1_CLASS1, ra::IIN1_CLASS2, ra::IIN1_CLASS3][k as usize - 1];
             let got = i1 & bit != 0;
             if want != got {
-                self.viol("C13", "class_bit", &format!("class{}|{}|{what}", k, if got { "set-but-none" } else { "clear-but-available" }), format!("IIN1 class {k} bit is {got}, expected {want}"), J::hex(&frag[..frag.len().min(40)]));
+                self.viol(
+                    "C13",
+                    "class_bit",
+                    &format!(
+                        "class{}|{}|{what}",
+                        k,
+                        if got {
+                            "set-but-none"
+                        } else {
+                            "clear-but-available"
+                        }
+                    ),
+                    format!("IIN1 class {k} bit is {got}, expected {want}"),
+                    J::hex(&frag[..frag.len().min(40)]),
+                );
             } else {
                 out::count("class_bit_ok", 1);
             }
         }
         let got = i2 & ra::IIN2_OVERFLOW != 0;
         if got != self.overflow {
-            self.viol("C13", "overflow_bit", &format!("{}|{what}", if got { "set" } else { "clear" }), format!("IIN2.3 overflow is {got}, expected {}", self.overflow), J::hex(&frag[..frag.len().min(40)]));
+            self.viol(
+                "C13",
+                "overflow_bit",
+                &format!("{}|{what}", if got { "set" } else { "clear" }),
+                format!("IIN2.3 overflow is {got}, expected {}", self.overflow),
+                J::hex(&frag[..frag.len().min(40)]),
+            );
         } else {
             out::count("overflow_bit_ok", 1);
             if got {
@@ -439,15 +706,32 @@ impl<'a> World<'a> {
         }
         let got = i1 & ra::IIN1_RESTART != 0;
         if got != self.restart {
-            self.viol("C13", "restart_bit", &format!("{}|{what}", if got { "set" } else { "clear" }), format!("IIN1.7 restart is {got}, expected {}", self.restart), J::Null);
+            self.viol(
+                "C13",
+                "restart_bit",
+                &format!("{}|{what}", if got { "set" } else { "clear" }),
+                format!("IIN1.7 restart is {got}, expected {}", self.restart),
+                J::Null,
+            );
         } else {
             out::count("restart_bit_ok", 1);
         }
         let (nt, lc, dt, cc) = self.app_iin;
-        for (name, bit, oct, want) in [("need_time", ra::IIN1_NEED_TIME, i1, nt), ("local_control", ra::IIN1_LOCAL_CONTROL, i1, lc), ("device_trouble", ra::IIN1_DEVICE_TROUBLE, i1, dt), ("config_corrupt", ra::IIN2_CONFIG_CORRUPT, i2, cc)] {
+        for (name, bit, oct, want) in [
+            ("need_time", ra::IIN1_NEED_TIME, i1, nt),
+            ("local_control", ra::IIN1_LOCAL_CONTROL, i1, lc),
+            ("device_trouble", ra::IIN1_DEVICE_TROUBLE, i1, dt),
+            ("config_corrupt", ra::IIN2_CONFIG_CORRUPT, i2, cc),
+        ] {
             let got = oct & bit != 0;
             if got != want {
-                self.viol("C13", "app_bit", name, format!("{name} is {got}, application says {want}"), J::Null);
+                self.viol(
+                    "C13",
+                    "app_bit",
+                    name,
+                    format!("{name} is {got}, application says {want}"),
+                    J::Null,
+                );
             } else if want {
                 out::count("app_bit_set_ok", 1);
             }
@@ -458,16 +742,34 @@ impl<'a> World<'a> {
         match self.bc {
             Bc::None => {
                 if got {
-                    self.viol("C13", "broadcast_bit", "set-without-broadcast", "IIN1.0 set although no unreported broadcast".into(), J::Null);
+                    self.viol(
+                        "C13",
+                        "broadcast_bit",
+                        "set-without-broadcast",
+                        "IIN1.0 set although no unreported broadcast".into(),
+                        J::Null,
+                    );
                 }
             }
             Bc::Unreported(mode) => {
                 if !got {
-                    self.viol("C13", "broadcast_bit", &format!("clear-but-unreported|{mode:#x}"), format!("IIN1.0 clear although the broadcast to {mode:#x} was never reported"), J::Null);
+                    self.viol(
+                        "C13",
+                        "broadcast_bit",
+                        &format!("clear-but-unreported|{mode:#x}"),
+                        format!(
+                            "IIN1.0 clear although the broadcast to {mode:#x} was never reported"
+                        ),
+                        J::Null,
+                    );
                     self.bc = Bc::None;
                 } else {
                     out::count("broadcast_bit_ok", 1);
-                    self.bc = if mode == 0xFFFE { Bc::Reported(frag[0] & 0x0F, uns) } else { Bc::None };
+                    self.bc = if mode == 0xFFFE {
+                        Bc::Reported(frag[0] & 0x0F, uns)
+                    } else {
+                        Bc::None
+                    };
                 }
             }
             Bc::Reported(_, _) => {
@@ -495,18 +797,42 @@ impl<'a> World<'a> {
     }
 
     /// one begin_confirm .. end_confirm bracket (or its absence when a release was expected)
-    fn on_confirm_bracket(&mut self, cleared: Vec<u64>, end_state: Option<BufferState>, expect: Option<Vec<u64>>, what: &str) {
+    fn on_confirm_bracket(
+        &mut self,
+        cleared: Vec<u64>,
+        end_state: Option<BufferState>,
+        expect: Option<Vec<u64>>,
+        what: &str,
+    ) {
         let expect_list = expect.clone().unwrap_or_default();
         for id in &cleared {
             let pos = self.ledger.iter().position(|e| e.id == *id);
             match pos {
-                None => self.viol("C03", "R2_unknown_id", what, format!("event_cleared({id}) for an id never issued"), J::Null),
+                None => self.viol(
+                    "C03",
+                    "R2_unknown_id",
+                    what,
+                    format!("event_cleared({id}) for an id never issued"),
+                    J::Null,
+                ),
                 Some(p) => {
                     let (st, carried) = (self.ledger[p].st, self.ledger[p].carried.clone());
                     if st == St::Released {
-                        self.viol("C03", "R2_released_twice", what, format!("event {id} released twice"), J::Null);
+                        self.viol(
+                            "C03",
+                            "R2_released_twice",
+                            what,
+                            format!("event {id} released twice"),
+                            J::Null,
+                        );
                     } else if st == St::Discarded {
-                        self.viol("C03", "R2_released_after_discard", what, format!("event {id} released after being discarded"), J::Null);
+                        self.viol(
+                            "C03",
+                            "R2_released_after_discard",
+                            what,
+                            format!("event {id} released after being discarded"),
+                            J::Null,
+                        );
                     }
                     if !expect_list.contains(id) {
                         let never = carried.is_empty();
@@ -526,7 +852,9 @@ impl<'a> World<'a> {
         }
         if let Some(exp) = &expect {
             for id in exp {
-                if !cleared.contains(id) && self.ledger.iter().any(|e| e.id == *id && e.st == St::Held) {
+                if !cleared.contains(id)
+                    && self.ledger.iter().any(|e| e.id == *id && e.st == St::Held)
+                {
                     self.viol("C03", "R6_not_released", what, format!("confirmed response carried event {id} but the application was not told it was released"), J::Null);
                 }
             }
@@ -542,21 +870,41 @@ impl<'a> World<'a> {
                 }
                 by_type[e.t] += 1;
             }
-            let got_c = [s.classes.num_class_1, s.classes.num_class_2, s.classes.num_class_3];
+            let got_c = [
+                s.classes.num_class_1,
+                s.classes.num_class_2,
+                s.classes.num_class_3,
+            ];
             let t = s.types;
-            let got_t = [t.num_binary_input, t.num_double_bit_binary_input, t.num_binary_output_status, t.num_counter, t.num_frozen_counter, t.num_analog, t.num_analog_output_status, t.num_octet_string];
+            let got_t = [
+                t.num_binary_input,
+                t.num_double_bit_binary_input,
+                t.num_binary_output_status,
+                t.num_counter,
+                t.num_frozen_counter,
+                t.num_analog,
+                t.num_analog_output_status,
+                t.num_octet_string,
+            ];
             if got_c != by_class || got_t != by_type {
                 self.viol("C03", "R3_conservation", what, format!("buffer state after confirm {got_c:?}/{got_t:?}, ledger created-released-discarded = {by_class:?}/{by_type:?}"), J::Null);
             } else {
                 out::count("R3_conservation_ok", 1);
             }
             // overflow model: re-evaluated at every confirmation
-            let any_full = (0..8).any(|t| self.cfg.event_cfg[t] > 0 && by_type[t] >= self.cfg.event_cfg[t] as usize);
+            let any_full = (0..8)
+                .any(|t| self.cfg.event_cfg[t] > 0 && by_type[t] >= self.cfg.event_cfg[t] as usize);
             if !any_full {
                 self.overflow = false;
             }
         } else if !cleared.is_empty() {
-            self.viol("C03", "R6_no_bracket", what, "event_cleared outside begin_confirm/end_confirm".into(), J::Null);
+            self.viol(
+                "C03",
+                "R6_no_bracket",
+                what,
+                "event_cleared outside begin_confirm/end_confirm".into(),
+                J::Null,
+            );
         }
     }
 
@@ -570,7 +918,13 @@ impl<'a> World<'a> {
     /// confirm brackets -> ledger rules (the first bracket is matched against `expect`).
     /// `pre_sol` runs right before the first solicited fragment is processed: state changes caused by the
     /// triggering request (enabled classes ...) take effect when its response is built.
-    pub fn process_all(&mut self, rx: Vec<Rx>, expect: Option<Vec<u64>>, what: &str, mut pre_sol: Option<&mut dyn FnMut(&mut Self)>) -> Vec<Carried> {
+    pub fn process_all(
+        &mut self,
+        rx: Vec<Rx>,
+        expect: Option<Vec<u64>>,
+        what: &str,
+        mut pre_sol: Option<&mut dyn FnMut(&mut Self)>,
+    ) -> Vec<Carried> {
         enum It {
             F(Rx),
             C(Ev),
@@ -612,7 +966,9 @@ impl<'a> World<'a> {
                         sols.push(self.on_sol(t_ms, bytes, what, true));
                     }
                 }
-                It::F(Rx::Garbage { why, bytes, .. }) => self.viol("C03", "wire_garbage", "garbage", why, J::hex(&bytes)),
+                It::F(Rx::Garbage { why, bytes, .. }) => {
+                    self.viol("C03", "wire_garbage", "garbage", why, J::hex(&bytes))
+                }
                 It::F(_) => {}
             }
         }
@@ -630,7 +986,11 @@ impl<'a> World<'a> {
     pub fn on_unsol(&mut self, t_ms: u64, f: Vec<u8>) {
         self.serial += 1;
         let seq = f[0] & 0x0F;
-        let is_retry = self.out_unsol.as_ref().map(|c| c.bytes == f).unwrap_or(false);
+        let is_retry = self
+            .out_unsol
+            .as_ref()
+            .map(|c| c.bytes == f)
+            .unwrap_or(false);
         if is_retry {
             if let Some(c) = &mut self.out_unsol {
                 c.t_ms = t_ms;
@@ -651,23 +1011,50 @@ impl<'a> World<'a> {
         let null = f.len() == 4;
         if !null {
             // R5 (unsolicited): re-selection from scratch over enabled classes, oldest first, prefix by space
-            let mut expect: Vec<u64> = self.held().filter(|e| (1..=3).contains(&e.class) && self.enabled[e.class as usize - 1]).map(|e| e.id).collect();
+            let mut expect: Vec<u64> = self
+                .held()
+                .filter(|e| (1..=3).contains(&e.class) && self.enabled[e.class as usize - 1])
+                .map(|e| e.id)
+                .collect();
             expect.sort();
             if !(ids.len() <= expect.len() && expect[..ids.len()] == ids[..]) {
-                let carried_before = expect.iter().take(ids.len().max(1)).any(|id| !ids.contains(id) && self.ledger.iter().any(|e| e.id == *id && !e.carried.is_empty()));
+                let carried_before = expect.iter().take(ids.len().max(1)).any(|id| {
+                    !ids.contains(id)
+                        && self
+                            .ledger
+                            .iter()
+                            .any(|e| e.id == *id && !e.carried.is_empty())
+                });
                 self.viol("C03", "R5_unsol_selection", if carried_before { "previously-carried-not-offered" } else { "selection" }, format!("unsolicited response carries {ids:?}, expected a prefix of {expect:?} (enabled {:?})", self.enabled), J::hex(&f[..f.len().min(80)]));
             } else {
                 out::count("R5_unsol_selection_ok", 1);
             }
             if !self.null_confirmed {
-                self.viol("C14", "U1_data_before_null_confirmed", "data", "data-bearing unsolicited response before the null response was confirmed".into(), J::Null);
+                self.viol(
+                    "C14",
+                    "U1_data_before_null_confirmed",
+                    "data",
+                    "data-bearing unsolicited response before the null response was confirmed"
+                        .into(),
+                    J::Null,
+                );
             }
         }
-        self.hist.push(format!("t={t_ms} <- unsol seq={seq} ids={ids:?} iin={:02x}{:02x}", f[2], f[3]));
+        self.hist.push(format!(
+            "t={t_ms} <- unsol seq={seq} ids={ids:?} iin={:02x}{:02x}",
+            f[2], f[3]
+        ));
         // the unsolicited response's own events count as "part of"
         self.check_iin(&f, &ids, "unsol");
         self.last_unsol_seq = Some(seq);
-        self.out_unsol = Some(Carried { serial, seq, ids, fin: true, bytes: f, t_ms });
+        self.out_unsol = Some(Carried {
+            serial,
+            seq,
+            ids,
+            fin: true,
+            bytes: f,
+            t_ms,
+        });
         out::count("unsol_series_seen", 1);
     }
 
@@ -681,11 +1068,25 @@ impl<'a> World<'a> {
                 e.carried.push(serial);
             }
         }
-        self.hist.push(format!("t={t_ms} <- sol seq={} ctrl={:02x} ids={ids:?} iin={:02x}{:02x} len={}", f[0] & 0x0F, f[0] & 0xF0, f[2], f[3], f.len()));
+        self.hist.push(format!(
+            "t={t_ms} <- sol seq={} ctrl={:02x} ids={ids:?} iin={:02x}{:02x} len={}",
+            f[0] & 0x0F,
+            f[0] & 0xF0,
+            f[2],
+            f[3],
+            f.len()
+        ));
         if fresh {
             self.check_iin(&f, &ids, what);
         }
-        Carried { serial, seq: f[0] & 0x0F, ids, fin: f[0] & ra::FIN != 0, bytes: f, t_ms }
+        Carried {
+            serial,
+            seq: f[0] & 0x0F,
+            ids,
+            fin: f[0] & ra::FIN != 0,
+            bytes: f,
+            t_ms,
+        }
     }
 
     /// send a fragment from the configured master, settle, return what was written (wire order)
@@ -702,10 +1103,23 @@ impl<'a> World<'a> {
     }
 
     /// nothing solicited is expected: process and flag any solicited fragment
-    pub fn expect_no_sol(&mut self, rx: Vec<Rx>, expect: Option<Vec<u64>>, what: &str, prop: &str, rule: &str) {
+    pub fn expect_no_sol(
+        &mut self,
+        rx: Vec<Rx>,
+        expect: Option<Vec<u64>>,
+        what: &str,
+        prop: &str,
+        rule: &str,
+    ) {
         let s = self.process_all(rx, expect, what, None);
         if !s.is_empty() {
-            self.viol(prop, rule, what, format!("unexpected solicited fragment after {what}"), J::hex(&s[0].bytes[..s[0].bytes.len().min(60)]));
+            self.viol(
+                prop,
+                rule,
+                what,
+                format!("unexpected solicited fragment after {what}"),
+                J::hex(&s[0].bytes[..s[0].bytes.len().min(60)]),
+            );
         }
     }
 }
@@ -716,7 +1130,9 @@ fn meas_matches(e: &LEv, m: &Meas) -> bool {
         (UVal::Dbl(a), Val::DBit(b)) => a == b,
         (UVal::Num(a), Val::U32(b)) => a == b,
         (UVal::Num(a), Val::U16(b)) => *a == *b as u32,
-        (UVal::Ana(a), x @ (Val::I32(_) | Val::I16(_) | Val::F32(_) | Val::F64(_))) => *a == x.as_f64(),
+        (UVal::Ana(a), x @ (Val::I32(_) | Val::I16(_) | Val::F32(_) | Val::F64(_))) => {
+            *a == x.as_f64()
+        }
         (UVal::Oct(a), Val::Bytes(b)) => a == b,
         _ => false,
     };
@@ -753,8 +1169,22 @@ enum Act {
 }
 
 fn pick_act(r: &mut Rng, profile: &str) -> Act {
-    let w: [u32; 9] = if profile == "c13" { [50, 6, 4, 10, 4, 8, 3, 3, 6] } else { [40, 8, 6, 12, 8, 10, 6, 6, 4] };
-    [Act::ConfirmRight, Act::ConfirmWrongSeq, Act::ConfirmWrongUns, Act::Timeout, Act::LateConfirm, Act::AbortWithRequest, Act::ReconnectClose, Act::ReconnectPreempt, Act::Leave][r.weighted(&w)]
+    let w: [u32; 9] = if profile == "c13" {
+        [50, 6, 4, 10, 4, 8, 3, 3, 6]
+    } else {
+        [40, 8, 6, 12, 8, 10, 6, 6, 4]
+    };
+    [
+        Act::ConfirmRight,
+        Act::ConfirmWrongSeq,
+        Act::ConfirmWrongUns,
+        Act::Timeout,
+        Act::LateConfirm,
+        Act::AbortWithRequest,
+        Act::ReconnectClose,
+        Act::ReconnectPreempt,
+        Act::Leave,
+    ][r.weighted(&w)]
 }
 
 impl<'a> World<'a> {
@@ -764,13 +1194,30 @@ impl<'a> World<'a> {
         } else {
             self.sim.reconnect_preempt().await;
         }
-        self.hist.push(format!("t={} reconnect {}", self.sim.now(), if close { "close" } else { "preempt" }));
+        self.hist.push(format!(
+            "t={} reconnect {}",
+            self.sim.now(),
+            if close { "close" } else { "preempt" }
+        ));
         self.out_sol = None;
         self.out_unsol = None;
         self.series_expect = None;
         let rx = self.idle_collect().await;
-        self.expect_no_sol(rx, None, "reconnect", "C11", "stale_response_on_new_connection");
-        out::count(if close { "reconnect_close" } else { "reconnect_preempt" }, 1);
+        self.expect_no_sol(
+            rx,
+            None,
+            "reconnect",
+            "C11",
+            "stale_response_on_new_connection",
+        );
+        out::count(
+            if close {
+                "reconnect_close"
+            } else {
+                "reconnect_preempt"
+            },
+            1,
+        );
     }
 
     /// build a READ request and its reference selection headers
@@ -800,7 +1247,11 @@ impl<'a> World<'a> {
                     let g = EGROUP[t as usize];
                     if self.r.chance(1, 3) {
                         let lim = self.r.range(0, 4) as u16;
-                        b = if self.r.bool() { b.count8(g, 0, lim as u8, &[]) } else { b.count16(g, 0, lim, &[]) };
+                        b = if self.r.bool() {
+                            b.count8(g, 0, lim as u8, &[])
+                        } else {
+                            b.count16(g, 0, lim, &[])
+                        };
                         hs.push(('t', t, Some(lim as usize)));
                         label += &format!("g{g}v0[{lim}] ");
                     } else {
@@ -827,7 +1278,11 @@ impl<'a> World<'a> {
     async fn poll(&mut self, profile: &str) {
         let (rd, hs, label) = self.make_read();
         let expect_all = self.reference_selection(&hs);
-        self.hist.push(format!("t={} -> READ {label} seq={} (reference selection {expect_all:?})", self.sim.now(), self.seq));
+        self.hist.push(format!(
+            "t={} -> READ {label} seq={} (reference selection {expect_all:?})",
+            self.sim.now(),
+            self.seq
+        ));
         // a new request ends an outstanding solicited series
         self.out_sol = None;
         self.series_expect = Some(expect_all.clone());
@@ -841,7 +1296,11 @@ impl<'a> World<'a> {
             if self.r.bool() {
                 // confirm the unsolicited response: releases its events, then the read is served
                 let cf = ra::B::confirm(c.seq, true).done();
-                self.hist.push(format!("t={} -> unsol CONFIRM seq={} (read deferred)", self.sim.now(), c.seq));
+                self.hist.push(format!(
+                    "t={} -> unsol CONFIRM seq={} (read deferred)",
+                    self.sim.now(),
+                    c.seq
+                ));
                 let rx = self.exchange(&cf).await;
                 self.out_unsol = None;
                 if c.bytes.len() == 4 {
@@ -855,7 +1314,10 @@ impl<'a> World<'a> {
                 sol = self.process_all(rx, Some(c.ids.clone()), "read", Some(&mut pre));
             } else {
                 self.sim.advance(to).await;
-                self.hist.push(format!("t={} (waited {to} ms for the deferred read)", self.sim.now()));
+                self.hist.push(format!(
+                    "t={} (waited {to} ms for the deferred read)",
+                    self.sim.now()
+                ));
                 let rx = self.idle_collect().await;
                 // the unsolicited series ended unconfirmed (a deferred read stops retries)
                 self.out_unsol = None;
@@ -867,12 +1329,24 @@ impl<'a> World<'a> {
             }
         }
         if sol.is_empty() {
-            self.viol("C12", "S1_silence", "read", "READ got no response".into(), J::hex(&rd));
+            self.viol(
+                "C12",
+                "S1_silence",
+                "read",
+                "READ got no response".into(),
+                J::hex(&rd),
+            );
             return;
         }
         out::eval(1);
         if sol.len() > 1 {
-            self.viol("C11", "series_not_gated", "read", "more than one fragment transmitted without a confirm".into(), J::Null);
+            self.viol(
+                "C11",
+                "series_not_gated",
+                "read",
+                "more than one fragment transmitted without a confirm".into(),
+                J::Null,
+            );
         }
         let mut frag_no = 0usize;
         let mut c = sol.remove(0);
@@ -885,13 +1359,41 @@ impl<'a> World<'a> {
                     exp.drain(..n);
                     out::count("R5_selection_prefix_ok", 1);
                     if c.fin && !exp.is_empty() {
-                        let carried_before = exp.iter().any(|id| self.ledger.iter().any(|e| e.id == *id && e.carried.iter().any(|s| *s != c.serial)));
-                        self.viol("C03", "R5_offered_until_confirmed", &format!("read|final-but-missing|{}", if carried_before { "previously-carried" } else { "never-carried" }), format!("final fragment sent but selected events {exp:?} were not reported"), J::Null);
+                        let carried_before = exp.iter().any(|id| {
+                            self.ledger
+                                .iter()
+                                .any(|e| e.id == *id && e.carried.iter().any(|s| *s != c.serial))
+                        });
+                        self.viol(
+                            "C03",
+                            "R5_offered_until_confirmed",
+                            &format!(
+                                "read|final-but-missing|{}",
+                                if carried_before {
+                                    "previously-carried"
+                                } else {
+                                    "never-carried"
+                                }
+                            ),
+                            format!(
+                                "final fragment sent but selected events {exp:?} were not reported"
+                            ),
+                            J::Null,
+                        );
                     }
                     self.series_expect = Some(exp);
                 } else {
-                    let missing: Vec<u64> = exp.iter().take(n.max(1)).filter(|x| !c.ids.contains(x)).cloned().collect();
-                    let carried_before = missing.iter().any(|id| self.ledger.iter().any(|e| e.id == *id && e.carried.iter().any(|s| *s != c.serial)));
+                    let missing: Vec<u64> = exp
+                        .iter()
+                        .take(n.max(1))
+                        .filter(|x| !c.ids.contains(x))
+                        .cloned()
+                        .collect();
+                    let carried_before = missing.iter().any(|id| {
+                        self.ledger
+                            .iter()
+                            .any(|e| e.id == *id && e.carried.iter().any(|s| *s != c.serial))
+                    });
                     self.viol(
                         "C03",
                         "R5_offered_until_confirmed",
@@ -904,14 +1406,24 @@ impl<'a> World<'a> {
             }
             let con = c.bytes[0] & ra::CON != 0;
             if !c.ids.is_empty() && !con {
-                self.viol("C11", "event_fragment_without_con", "read", "fragment with events does not request confirmation".into(), J::Null);
+                self.viol(
+                    "C11",
+                    "event_fragment_without_con",
+                    "read",
+                    "fragment with events does not request confirmation".into(),
+                    J::Null,
+                );
             }
             if !con {
                 self.out_sol = None;
                 break;
             }
             self.out_sol = Some(c.clone());
-            out::distinct(&format!("{profile}/sol/frag{}/{}", frag_no.min(3), if c.fin { "fin" } else { "more" }));
+            out::distinct(&format!(
+                "{profile}/sol/frag{}/{}",
+                frag_no.min(3),
+                if c.fin { "fin" } else { "more" }
+            ));
             // maybe update while the fragment awaits its confirm (events created now are not part of the series)
             if self.r.chance(1, 3) {
                 let k = self.r.range(1, 3);
@@ -927,41 +1439,80 @@ impl<'a> World<'a> {
             match act {
                 Act::ConfirmRight => {
                     let cf = ra::B::confirm(c.seq, false).done();
-                    self.hist.push(format!("t={} -> CONFIRM seq={}", self.sim.now(), c.seq));
+                    self.hist
+                        .push(format!("t={} -> CONFIRM seq={}", self.sim.now(), c.seq));
                     let rx = self.exchange(&cf).await;
-                    let ids = self.out_sol.as_ref().map(|c| c.ids.clone()).unwrap_or_default();
+                    let ids = self
+                        .out_sol
+                        .as_ref()
+                        .map(|c| c.ids.clone())
+                        .unwrap_or_default();
                     self.out_sol = None;
                     let s = self.process_all(rx, Some(ids), "read", None);
                     if c.fin {
                         if !s.is_empty() {
-                            self.viol("C11", "series_continues_after_fin", "read", "fragment after the confirm of the final fragment".into(), J::Null);
+                            self.viol(
+                                "C11",
+                                "series_continues_after_fin",
+                                "read",
+                                "fragment after the confirm of the final fragment".into(),
+                                J::Null,
+                            );
                         }
                         break;
                     }
                     if s.is_empty() {
-                        self.viol("C11", "series_stalled", "read", "no next fragment after the confirm of a non-final fragment".into(), J::Null);
+                        self.viol(
+                            "C11",
+                            "series_stalled",
+                            "read",
+                            "no next fragment after the confirm of a non-final fragment".into(),
+                            J::Null,
+                        );
                         break;
                     }
                     let prev_seq = c.seq;
                     c = s[0].clone();
                     if c.seq != (prev_seq + 1) & 0x0F || c.bytes[0] & ra::FIR != 0 {
-                        self.viol("C11", "series_numbering", "read", format!("next fragment has control {:02x} after sequence {}", c.bytes[0], prev_seq), J::Null);
+                        self.viol(
+                            "C11",
+                            "series_numbering",
+                            "read",
+                            format!(
+                                "next fragment has control {:02x} after sequence {}",
+                                c.bytes[0], prev_seq
+                            ),
+                            J::Null,
+                        );
                     }
                     continue;
                 }
                 Act::ConfirmWrongSeq | Act::ConfirmWrongUns => {
-                    let cf = if act == Act::ConfirmWrongSeq { ra::B::confirm((c.seq + self.r.range(1, 15) as u8) & 0x0F, false).done() } else { ra::B::confirm(c.seq, true).done() };
-                    self.hist.push(format!("t={} -> wrong CONFIRM {}", self.sim.now(), hex(&cf)));
+                    let cf = if act == Act::ConfirmWrongSeq {
+                        ra::B::confirm((c.seq + self.r.range(1, 15) as u8) & 0x0F, false).done()
+                    } else {
+                        ra::B::confirm(c.seq, true).done()
+                    };
+                    self.hist.push(format!(
+                        "t={} -> wrong CONFIRM {}",
+                        self.sim.now(),
+                        hex(&cf)
+                    ));
                     let rx = self.exchange(&cf).await;
                     self.expect_no_sol(rx, None, "wrong-confirm", "C11", "series_not_gated");
                     // still waiting: now give the right one or let it time out
                     if self.r.bool() {
                         let cf = ra::B::confirm(c.seq, false).done();
-                        self.hist.push(format!("t={} -> CONFIRM seq={}", self.sim.now(), c.seq));
+                        self.hist
+                            .push(format!("t={} -> CONFIRM seq={}", self.sim.now(), c.seq));
                         let rx = self.exchange(&cf).await;
-                        let ids = self.out_sol.as_ref().map(|c| c.ids.clone()).unwrap_or_default();
+                        let ids = self
+                            .out_sol
+                            .as_ref()
+                            .map(|c| c.ids.clone())
+                            .unwrap_or_default();
                         self.out_sol = None;
-                            let s = self.process_all(rx, Some(ids), "read", None);
+                        let s = self.process_all(rx, Some(ids), "read", None);
                         if c.fin || s.is_empty() {
                             break;
                         }
@@ -972,23 +1523,46 @@ impl<'a> World<'a> {
                         let rx = self.idle_collect().await;
                         self.out_sol = None;
                         self.series_expect = None;
-                        self.expect_no_sol(rx, None, "sol-timeout", "C11", "series_continues_after_timeout");
+                        self.expect_no_sol(
+                            rx,
+                            None,
+                            "sol-timeout",
+                            "C11",
+                            "series_continues_after_timeout",
+                        );
                         break;
                     }
                 }
                 Act::Timeout | Act::LateConfirm => {
                     self.sim.advance(self.cfg.confirm_timeout_ms).await;
-                    self.hist.push(format!("t={} (confirm timeout)", self.sim.now()));
+                    self.hist
+                        .push(format!("t={} (confirm timeout)", self.sim.now()));
                     let rx = self.idle_collect().await;
                     self.out_sol = None;
                     self.series_expect = None;
-                    self.expect_no_sol(rx, None, "sol-timeout", "C11", "series_continues_after_timeout");
+                    self.expect_no_sol(
+                        rx,
+                        None,
+                        "sol-timeout",
+                        "C11",
+                        "series_continues_after_timeout",
+                    );
                     if act == Act::LateConfirm {
                         let cf = ra::B::confirm(c.seq, false).done();
-                        self.hist.push(format!("t={} -> late CONFIRM seq={}", self.sim.now(), c.seq));
+                        self.hist.push(format!(
+                            "t={} -> late CONFIRM seq={}",
+                            self.sim.now(),
+                            c.seq
+                        ));
                         let rx = self.exchange(&cf).await;
                         // received in the idle state (or in an unsolicited confirm wait, where it clears a mandatory broadcast)
-                        self.expect_no_sol(rx, None, "late-confirm", "C11", "series_continues_after_timeout");
+                        self.expect_no_sol(
+                            rx,
+                            None,
+                            "late-confirm",
+                            "C11",
+                            "series_continues_after_timeout",
+                        );
                         out::count("late_confirms", 1);
                     }
                     out::count("sol_timeouts", 1);
@@ -998,7 +1572,10 @@ impl<'a> World<'a> {
                     // a non-read request aborts the series
                     let seq = self.next_seq();
                     let q = ra::B::request(ra::F_DELAY_MEASURE, seq).done();
-                    self.hist.push(format!("t={} -> DELAY_MEASURE (aborts the series)", self.sim.now()));
+                    self.hist.push(format!(
+                        "t={} -> DELAY_MEASURE (aborts the series)",
+                        self.sim.now()
+                    ));
                     let rx = self.exchange(&q).await;
                     // a new request ends the series the moment it is received
                     self.out_sol = None;
@@ -1006,15 +1583,31 @@ impl<'a> World<'a> {
                     let s = self.process_all(rx, None, "delay-measure", None);
                     for f in &s {
                         if f.seq != seq {
-                            self.viol("C11", "series_continues_after_new_request", "abort", "series fragment sent after a new request".into(), J::Null);
+                            self.viol(
+                                "C11",
+                                "series_continues_after_new_request",
+                                "abort",
+                                "series fragment sent after a new request".into(),
+                                J::Null,
+                            );
                         }
                     }
                     // the old confirm now must release nothing
                     if self.r.bool() {
                         let cf = ra::B::confirm(c.seq, false).done();
-                        self.hist.push(format!("t={} -> stale CONFIRM seq={}", self.sim.now(), c.seq));
+                        self.hist.push(format!(
+                            "t={} -> stale CONFIRM seq={}",
+                            self.sim.now(),
+                            c.seq
+                        ));
                         let rx = self.exchange(&cf).await;
-                        self.expect_no_sol(rx, None, "confirm-after-abort", "C12", "S3_confirm_answered");
+                        self.expect_no_sol(
+                            rx,
+                            None,
+                            "confirm-after-abort",
+                            "C12",
+                            "S3_confirm_answered",
+                        );
                     }
                     out::count("aborts", 1);
                     break;
@@ -1023,9 +1616,19 @@ impl<'a> World<'a> {
                     self.do_reconnect(act == Act::ReconnectClose).await;
                     // a confirm on the new connection must release nothing
                     let cf = ra::B::confirm(c.seq, false).done();
-                    self.hist.push(format!("t={} -> CONFIRM seq={} on the new connection", self.sim.now(), c.seq));
+                    self.hist.push(format!(
+                        "t={} -> CONFIRM seq={} on the new connection",
+                        self.sim.now(),
+                        c.seq
+                    ));
                     let rx = self.exchange(&cf).await;
-                    self.expect_no_sol(rx, None, "confirm-after-reconnect", "C11", "series_continues_after_reconnect");
+                    self.expect_no_sol(
+                        rx,
+                        None,
+                        "confirm-after-reconnect",
+                        "C11",
+                        "series_continues_after_reconnect",
+                    );
                     break;
                 }
                 Act::Leave => {
@@ -1038,7 +1641,9 @@ impl<'a> World<'a> {
 
     /// react to an outstanding unsolicited response
     async fn handle_unsol(&mut self, profile: &str) {
-        let Some(c) = self.out_unsol.clone() else { return };
+        let Some(c) = self.out_unsol.clone() else {
+            return;
+        };
         let null = c.bytes.len() == 4;
         let act = match self.r.weighted(&[45, 8, 6, 20, 10, 5, 5]) {
             0 => Act::ConfirmRight,
@@ -1049,27 +1654,55 @@ impl<'a> World<'a> {
             5 => Act::ReconnectClose,
             _ => Act::ReconnectPreempt,
         };
-        out::distinct(&format!("{profile}/unsol/act/{act:?}/{}", if null { "null" } else { "data" }));
+        out::distinct(&format!(
+            "{profile}/unsol/act/{act:?}/{}",
+            if null { "null" } else { "data" }
+        ));
         match act {
             Act::ConfirmRight => {
                 let cf = ra::B::confirm(c.seq, true).done();
-                self.hist.push(format!("t={} -> unsol CONFIRM seq={}", self.sim.now(), c.seq));
+                self.hist.push(format!(
+                    "t={} -> unsol CONFIRM seq={}",
+                    self.sim.now(),
+                    c.seq
+                ));
                 let rx = self.exchange(&cf).await;
                 self.out_unsol = None;
                 if null {
                     self.null_confirmed = true;
                 }
-                self.expect_no_sol(rx, Some(c.ids.clone()), "unsol-confirm", "C12", "S3_confirm_answered");
+                self.expect_no_sol(
+                    rx,
+                    Some(c.ids.clone()),
+                    "unsol-confirm",
+                    "C12",
+                    "S3_confirm_answered",
+                );
             }
             Act::ConfirmWrongSeq | Act::ConfirmWrongUns => {
-                let cf = if act == Act::ConfirmWrongSeq { ra::B::confirm((c.seq + self.r.range(1, 15) as u8) & 0x0F, true).done() } else { ra::B::confirm(c.seq, false).done() };
-                self.hist.push(format!("t={} -> wrong unsol CONFIRM {}", self.sim.now(), hex(&cf)));
+                let cf = if act == Act::ConfirmWrongSeq {
+                    ra::B::confirm((c.seq + self.r.range(1, 15) as u8) & 0x0F, true).done()
+                } else {
+                    ra::B::confirm(c.seq, false).done()
+                };
+                self.hist.push(format!(
+                    "t={} -> wrong unsol CONFIRM {}",
+                    self.sim.now(),
+                    hex(&cf)
+                ));
                 let rx = self.exchange(&cf).await;
-                self.expect_no_sol(rx, None, "wrong-unsol-confirm", "C12", "S3_confirm_answered");
+                self.expect_no_sol(
+                    rx,
+                    None,
+                    "wrong-unsol-confirm",
+                    "C12",
+                    "S3_confirm_answered",
+                );
             }
             Act::Timeout => {
                 self.sim.advance(self.cfg.confirm_timeout_ms).await;
-                self.hist.push(format!("t={} (unsol confirm timeout)", self.sim.now()));
+                self.hist
+                    .push(format!("t={} (unsol confirm timeout)", self.sim.now()));
                 let rx = self.idle_collect().await;
                 let before = self.out_unsol.as_ref().map(|c| (c.serial, c.t_ms));
                 self.expect_no_sol(rx, None, "unsol-timeout", "C12", "S1_spontaneous");
@@ -1081,8 +1714,13 @@ impl<'a> World<'a> {
             }
             Act::AbortWithRequest => {
                 let seq = self.next_seq();
-                let q = ra::B::request(ra::F_DISABLE_UNSOL, seq).all(60, 2).all(60, 3).all(60, 4).done();
-                self.hist.push(format!("t={} -> DISABLE_UNSOLICITED", self.sim.now()));
+                let q = ra::B::request(ra::F_DISABLE_UNSOL, seq)
+                    .all(60, 2)
+                    .all(60, 3)
+                    .all(60, 4)
+                    .done();
+                self.hist
+                    .push(format!("t={} -> DISABLE_UNSOLICITED", self.sim.now()));
                 let rx = self.exchange(&q).await;
                 // the request takes effect when processed; its own response is built while the cancelled
                 // unsolicited response still counts as outstanding (the oracle keeps it until afterwards)
@@ -1115,7 +1753,11 @@ pub async fn scenario(a: &ShardArgs, check: &'static str, profile: &'static str,
     cfg.discard = r.bool();
     let small = r.chance(if profile == "c13" { 3 } else { 1 }, 4);
     for t in 0..8 {
-        cfg.event_cfg[t] = if small { *r.pick(&[0u16, 1, 2, 3, 5]) } else { *r.pick(&[3u16, 10, 100]) };
+        cfg.event_cfg[t] = if small {
+            *r.pick(&[0u16, 1, 2, 3, 5])
+        } else {
+            *r.pick(&[3u16, 10, 100])
+        };
     }
     let npt = r.range(1, 3) as u16;
     let mut pts = vec![];
@@ -1125,7 +1767,11 @@ pub async fn scenario(a: &ShardArgs, check: &'static str, profile: &'static str,
                 0 => None,
                 x => Some((x % 3 + 1) as u8),
             };
-            pts.push(Pt { t, index: i * 7 + (t as u16 % 3), class });
+            pts.push(Pt {
+                t,
+                index: i * 7 + (t as u16 % 3),
+                class,
+            });
         }
     }
     let mut rr = r.fork();
@@ -1175,7 +1821,11 @@ pub async fn scenario(a: &ShardArgs, check: &'static str, profile: &'static str,
             w.handle_unsol(profile).await;
             continue;
         }
-        let weights: [u32; 8] = if profile == "c13" { [30, 22, 8, 3, 3, 6, 14, 14] } else { [34, 30, 10, 6, 6, 2, 6, 6] };
+        let weights: [u32; 8] = if profile == "c13" {
+            [30, 22, 8, 3, 3, 6, 14, 14]
+        } else {
+            [34, 30, 10, 6, 6, 2, 6, 6]
+        };
         match w.r.weighted(&weights) {
             0 => {
                 let k = w.r.range(1, 5);
@@ -1194,7 +1844,14 @@ pub async fn scenario(a: &ShardArgs, check: &'static str, profile: &'static str,
                 // ENABLE / DISABLE unsolicited for a random set of classes
                 let enable = w.r.chance(3, 4);
                 let seq = w.next_seq();
-                let mut b = ra::B::request(if enable { ra::F_ENABLE_UNSOL } else { ra::F_DISABLE_UNSOL }, seq);
+                let mut b = ra::B::request(
+                    if enable {
+                        ra::F_ENABLE_UNSOL
+                    } else {
+                        ra::F_DISABLE_UNSOL
+                    },
+                    seq,
+                );
                 let mut set = [false; 3];
                 for k in 0..3 {
                     if w.r.bool() {
@@ -1202,7 +1859,15 @@ pub async fn scenario(a: &ShardArgs, check: &'static str, profile: &'static str,
                         b = b.all(60, k as u8 + 2);
                     }
                 }
-                w.hist.push(format!("t={} -> {} classes {set:?}", w.sim.now(), if enable { "ENABLE_UNSOL" } else { "DISABLE_UNSOL" }));
+                w.hist.push(format!(
+                    "t={} -> {} classes {set:?}",
+                    w.sim.now(),
+                    if enable {
+                        "ENABLE_UNSOL"
+                    } else {
+                        "DISABLE_UNSOL"
+                    }
+                ));
                 let rx = w.exchange(&b.done()).await;
                 // a new request ends a solicited series the moment it is received
                 w.out_sol = None;
@@ -1227,8 +1892,24 @@ pub async fn scenario(a: &ShardArgs, check: &'static str, profile: &'static str,
                 // clear the restart bit: WRITE g80v1 index 7 = 0 (sometimes a bad write)
                 let seq = w.next_seq();
                 let good = w.r.chance(3, 4);
-                let q = if good { ra::B::request(ra::F_WRITE, seq).range8(80, 1, 7, 7, &[0]).done() } else if w.r.bool() { ra::B::request(ra::F_WRITE, seq).range8(80, 1, 7, 7, &[1]).done() } else { ra::B::request(ra::F_WRITE, seq).range8(80, 1, 4, 4, &[0]).done() };
-                w.hist.push(format!("t={} -> WRITE restart bit ({})", w.sim.now(), if good { "index 7 = 0" } else { "bad" }));
+                let q = if good {
+                    ra::B::request(ra::F_WRITE, seq)
+                        .range8(80, 1, 7, 7, &[0])
+                        .done()
+                } else if w.r.bool() {
+                    ra::B::request(ra::F_WRITE, seq)
+                        .range8(80, 1, 7, 7, &[1])
+                        .done()
+                } else {
+                    ra::B::request(ra::F_WRITE, seq)
+                        .range8(80, 1, 4, 4, &[0])
+                        .done()
+                };
+                w.hist.push(format!(
+                    "t={} -> WRITE restart bit ({})",
+                    w.sim.now(),
+                    if good { "index 7 = 0" } else { "bad" }
+                ));
                 let rx = w.exchange(&q).await;
                 let before = w.restart;
                 w.out_sol = None;
@@ -1241,7 +1922,12 @@ pub async fn scenario(a: &ShardArgs, check: &'static str, profile: &'static str,
             }
             6 => {
                 // flip application flags
-                let f = (w.r.chance(1, 3), w.r.chance(1, 3), w.r.chance(1, 3), w.r.chance(1, 3));
+                let f = (
+                    w.r.chance(1, 3),
+                    w.r.chance(1, 3),
+                    w.r.chance(1, 3),
+                    w.r.chance(1, 3),
+                );
                 w.app_iin = f;
                 w.sim.mock.script(|s| {
                     s.app_iin.need_time = f.0;
@@ -1259,7 +1945,8 @@ pub async fn scenario(a: &ShardArgs, check: &'static str, profile: &'static str,
                 let mode = 0xFFFD + w.r.below(3) as u16;
                 let q = ra::B::request(ra::F_RECORD_CURRENT_TIME, w.r.below(16) as u8).done();
                 let m = w.cfg.master_addr;
-                w.hist.push(format!("t={} -> broadcast to {mode:#x}", w.sim.now()));
+                w.hist
+                    .push(format!("t={} -> broadcast to {mode:#x}", w.sim.now()));
                 w.bc_sent.push_back(mode);
                 w.sim.send_from(m, mode, &q, &[]);
                 let rx = w.idle_collect().await;
@@ -1270,11 +1957,29 @@ pub async fn scenario(a: &ShardArgs, check: &'static str, profile: &'static str,
     }
     for p in crate::verif::util::take_panics() {
         let loc = crate::verif::util::norm_location(&p.location);
-        w.viol("C01", "panic", &loc, format!("panic {} at {}", p.message, p.location), J::Null);
-        w.viol(if profile == "c13" { "C13" } else { "C03" }, "panic", &loc, format!("panic {} at {}", p.message, p.location), J::Null);
+        w.viol(
+            "C01",
+            "panic",
+            &loc,
+            format!("panic {} at {}", p.message, p.location),
+            J::Null,
+        );
+        w.viol(
+            if profile == "c13" { "C13" } else { "C03" },
+            "panic",
+            &loc,
+            format!("panic {} at {}", p.message, p.location),
+            J::Null,
+        );
     }
     if w.sim.task_finished() {
-        w.viol(if profile == "c13" { "C13" } else { "C03" }, "task_ended", "ended", "the outstation task ended".into(), J::Null);
+        w.viol(
+            if profile == "c13" { "C13" } else { "C03" },
+            "task_ended",
+            "ended",
+            "the outstation task ended".into(),
+            J::Null,
+        );
     }
     if a.replay.is_some() {
         for l in crate::verif::trace::tail(150) {
@@ -1285,12 +1990,23 @@ pub async fn scenario(a: &ShardArgs, check: &'static str, profile: &'static str,
         }
     }
     if out::sample_count() < 2 && w.hist.len() > 6 {
-        out::sample(J::obj(vec![("config", w.cfg.to_json()), ("history", J::arr(w.hist.iter().cloned()))]));
+        out::sample(J::obj(vec![
+            ("config", w.cfg.to_json()),
+            ("history", J::arr(w.hist.iter().cloned())),
+        ]));
     }
 }
 
-pub fn run(a: &ShardArgs, check: &'static str, profile: &'static str, quick_n: u64) -> Result<(), String> {
-    let only: Option<u64> = a.replay.as_ref().and_then(|p| super::common::replay_scenario(p));
+pub fn run(
+    a: &ShardArgs,
+    check: &'static str,
+    profile: &'static str,
+    quick_n: u64,
+) -> Result<(), String> {
+    let only: Option<u64> = a
+        .replay
+        .as_ref()
+        .and_then(|p| super::common::replay_scenario(p));
     let n = a.n(quick_n);
     for idx in 0..n {
         if idx % a.nshards != a.shard {
